@@ -1065,8 +1065,9 @@ pub enum AppearanceStreamEntry {
 }
 impl Object for AppearanceStreamEntry {
     fn from_primitive(p: Primitive, resolve: &impl Resolve) -> Result<Self> {
-        // an appearance is a stream or a dictionary of states; a few levels are plenty
-        Self::from_primitive_depth(p, resolve, 4)
+        // an appearance is a stream or one dictionary of states whose values are streams; deeper
+        // nesting multiplies the entries of every level (24 states on four levels: 331 776 values)
+        Self::from_primitive_depth(p, resolve, 1)
     }
 }
 impl AppearanceStreamEntry {
